@@ -979,6 +979,10 @@ def gen_lvalue(node, code, codegen):
             code.add((f'push{node.type.type_char}', node.eval()))
         return
 
+    if not node.type.is_builtin:
+        # a whole record or array cannot be used as a value
+        raise CompileError(EC.TYPE_MISMATCH, node=node)
+
     if node.implicit_decl and node.implicit_decl.type.is_array:
         gen_static_array_init(node.implicit_decl, code, codegen)
 
